@@ -26,7 +26,7 @@ pub struct Violation {
     pub detail: String,
 }
 
-pub const CHECK_IDS: [&str; 17] = ["E0", "E1", "E2", "E3", "A1", "D1", "D2", "D3", "D4", "D5", "D6", "B1", "M1", "S1", "S2", "S3", "S4"];
+pub const CHECK_IDS: [&str; 18] = ["E0", "E1", "E2", "E3", "A1", "D1", "D2", "D3", "D4", "D5", "D6", "B1", "M1", "S1", "S2", "S3", "S4", "U1"];
 
 fn check_no(id: &str) -> u64 {
     CHECK_IDS.iter().position(|c| *c == id).unwrap_or(99) as u64
